@@ -47,6 +47,27 @@ pub fn pick_class(rng: &mut Rng, weights: [u64; 4]) -> SizeClass {
 
 thread_local! {
     static TARGET_OVERRIDE: std::cell::Cell<Option<usize>> = const { std::cell::Cell::new(None) };
+    static PI_HEAVY: std::cell::Cell<Option<usize>> = const { std::cell::Cell::new(None) };
+}
+
+/// The next generated scenario is a public-input-heavy circuit: `k` `append_public` rows (a share of
+/// them zero-valued through `Kind::Bits(0)`) followed by a few ordinary ops (consumed once).
+pub fn set_pi_heavy(k: Option<usize>) {
+    PI_HEAVY.with(|x| x.set(k));
+}
+
+/// Public-input counts around the sizes at which block-wise code would change behaviour.
+pub fn pi_heavy_count(rng: &mut Rng) -> usize {
+    match rng.below(8) {
+        0 => 255 + rng.usize(3),
+        1 => 300 + rng.usize(400),
+        2 => 1022 + rng.usize(4),
+        3 => 1030 + rng.usize(200),
+        4 => 1279 + rng.usize(3),
+        5 => 1500 + rng.usize(500),
+        6 => 63 + rng.usize(3),
+        _ => 100 + rng.usize(100),
+    }
 }
 
 /// Pin the constraint count of the next generated scenario (consumed once).
@@ -140,6 +161,21 @@ pub fn gen_scenario(ctx: &mut RunCtx, w: &mut Rng, cfg: &ScenCfg) -> Scenario {
         }
     }
     let mut prog = prog.unwrap_or(Program { ops: vec![Op::Filler(target.saturating_sub(4).max(1))] });
+    if let Some(k) = PI_HEAVY.with(|x| x.take()) {
+        use crate::program::Kind;
+        let mut ops = Vec::with_capacity(k + 4);
+        let zero_every = *prog_rng.pick(&[0usize, 2, 7, 64]);
+        for i in 0..k {
+            let zero = zero_every != 0 && i % zero_every == zero_every - 1;
+            ops.push(Op::Public(if zero { Kind::Bits(0) } else { Kind::Any }));
+        }
+        // a few ordinary rows after the block, if they still count
+        let tail: Vec<Op> = prog.ops.iter().filter(|o| !matches!(o, Op::Filler(_))).take(3).cloned().collect();
+        let mut cand = Program { ops: ops.clone() };
+        cand.ops.extend(tail);
+        prog = if count_constraints(&cand).is_some() { cand } else { Program { ops } };
+        ctx.st.probe("pi_heavy_scenario");
+    }
     ctx.hints.n_ops = prog.ops.len();
     let drop = ctx.spec.list("drop");
     if !drop.is_empty() {
